@@ -5,6 +5,7 @@ import (
 	"fmt"
 	"strings"
 	"time"
+	"unsafe"
 
 	"github.com/samber/ro"
 	"verif.local/harness/fw"
@@ -755,13 +756,80 @@ func c16Twice(op timedOp, overlapping bool) fw.Case {
 	}}
 }
 
-type twoSubs struct{ s [2]ro.Subscription }
+// twoSubs hands the Subscription from the subscribing thread to the driver, as a channel or a mutex would in
+// a real program (that hand-over is a happens-before edge for the race detector).
+// c16Resubscribed: a time-driven OPERATOR value subscribed, fed, cut, and subscribed again while its source
+// stays silent: the second subscription must not deliver anything that belongs to the first (a pending
+// sample, a throttling window, a buffer).
+func c16Resubscribed(op timedOp, tl []tlItem) fw.Case {
+	nm := "subscribed again after [" + tlString(tl) + "] and an unsubscription"
+	total := time.Duration(0)
+	for _, it := range tl {
+		total += it.gap
+	}
+	return fw.Case{Name: nm, Opts: vrt.Options{Horizon: 60000, MaxTime: int64(total + 4*op.d + 2*u)}, Make: func() fw.Instance {
+		rec1, rec2 := h.NewRec("first"), h.NewRec("second")
+		l1, l2 := &c16log{cutAt: -1}, &c16log{cutAt: -1}
+		var escaped string
+		body := func() {
+			src := h.NewSrc("src")
+			o, push := h.Pushed[int](src, h.Unsafe)
+			subscribe := op.build(o, l1) // ONE operator application
+			l1.subAt = vrt.NowNS()
+			var s1 ro.Subscription
+			guard(&escaped, "Subscribe", func() { s1 = subscribe(rec1) })
+			for _, it := range tl {
+				vrt.HSleep(int64(it.gap))
+				l1.emit(it.e)
+				push.Emit(it.e)
+				l1.returned()
+			}
+			if s1 != nil {
+				s1.Unsubscribe()
+			}
+			l2.subAt = vrt.NowNS()
+			guard(&escaped, "Subscribe", func() { subscribe(rec2) })
+			vrt.HSleep(int64(3 * op.d))
+		}
+		return fw.Instance{Body: body, Outcome: func() string { return rec1.Trace() + " | " + rec2.Trace() }, Check: func(r *vrt.Result) []fw.Violation {
+			var out []fw.Violation
+			add := func(clause, cls, detail string) {
+				out = append(out, fw.V("time/"+op.name+"/second-subscription:"+clause+"/"+cls, fmt.Sprintf("%s, %s: %s (first [%s], second [%s])", op.name, nm, detail, rec1.Trace(), rec2.Trace())))
+			}
+			op.check(l2, rec2.Log, add)
+			for _, en := range rec2.Log {
+				if en.K == h.N {
+					if b, ok := en.V.([]int); ok && len(b) == 0 {
+						continue // an empty buffer carries nothing
+					}
+					add("value-from-the-first-subscription", "stale", fmt.Sprintf("the source emitted nothing during the second subscription, yet %s was delivered", en.Ev.Short()))
+					break
+				}
+			}
+			if escaped != "" {
+				out = append(out, fw.V("time/"+op.name+"/panic-escaped/subscribe", escaped))
+			}
+			return out
+		}}
+	}}
+}
+
+type twoSubs struct {
+	s    [2]ro.Subscription
+	sync int64
+}
 
 //go:norace
-func (t *twoSubs) set(i int, s ro.Subscription) { t.s[i] = s }
+func (t *twoSubs) set(i int, s ro.Subscription) {
+	t.s[i] = s
+	vrt.RaceReleaseMerge(unsafe.Pointer(&t.sync))
+}
 
 //go:norace
-func (t *twoSubs) get(i int) ro.Subscription { return t.s[i] }
+func (t *twoSubs) get(i int) ro.Subscription {
+	vrt.RaceAcquire(unsafe.Pointer(&t.sync))
+	return t.s[i]
+}
 
 func init() {
 	Registry["C16"] = func(tier string) []fw.Scenario {
@@ -781,6 +849,9 @@ func init() {
 					c.Explore(c16Twice(op, true))
 				}
 				for _, tl := range tls {
+					if !op.creates && !op.blocks && len(tl) > 0 && len(tl) <= 2 && tl[len(tl)-1].e.K == h.N && !strings.Contains(op.name, "ContextWithTimeout") {
+						c.Explore(c16Resubscribed(op, tl))
+					}
 					c.Explore(c16Case(op, tl, -1, bound))
 					if len(tl) > 0 || op.creates {
 						// shorter than the duration (a timer armed before the value can fire during its
